@@ -70,7 +70,7 @@ def check_doc(ck, conc, loads, dumps, hist, origin, quote='"'):
         ck.violation("C03|%s|%s" % (kind, where_of(hist, key, shape)),
                      "printed line %d differs from the contract (%s): %s" % (i + 1, kind, detail),
                      {"text": text, "printed": out, "expected_events": exp[max(0, i - 1):i + 2], "origin": origin})
-    if "__" in out and any(("__%s__" % k) in out for k in ("type", "position", "comments", "tokens")):
+    if "__" in out and any(("__%s__" % k) in out for k in ("type", "position", "comments", "tokens", "verif")):
         ck.violation("C03|hidden-key-printed", "a __name__ key appears in the output", {"printed": out})
     return d
 
@@ -119,6 +119,8 @@ def apply_edit(conc, loads, d, op):
         del blk[op["key"]][op["index"] - 1]
     elif k == "reverse":
         blk[op["key"]].reverse()
+    elif k == "sethidden":
+        blk[op["key"]] = "hidden VALUE 1 2 3"
     elif k == "readmissing":
         _ = blk[concretise.case(op["key"], op["kc"])]
     else:
@@ -167,6 +169,10 @@ def check_history(ck, conc, loads, dumps, hist):
             ck.violation("C03|unreadable|%s" % sig_where, "independent reader cannot read the printed text: %s" % ex,
                          {"ops": ops, "printed": out})
             return
+        if "__verif__" in out or "hidden VALUE" in out:
+            ck.violation("C03|hidden-key-printed|edit", "a __name__ key set through the dict API appears in the output",
+                         {"ops": ops, "printed": out})
+            return
         df = events.compare(conc, a["out"]["events"], got, problems)
         if df:
             i, kind, detail, key, shape = df
@@ -206,7 +212,9 @@ def run(tier):
         conc = concretise.Concretiser(seed * 1000 + j, avoid_quote=q)
         if j < 50:
             selftest(conc, [h], quote=q)
-        check_doc(ck, conc, loads, impl.dumper(quote=q), h, "walk", quote=q)
+        # every other document is loaded with position/comment bookkeeping on: hidden keys everywhere
+        ld = loads if j % 4 < 2 else impl.loader(include_position=True, include_comments=(j % 4 == 3), expand_includes=False)
+        check_doc(ck, conc, ld, impl.dumper(quote=q), h, "walk", quote=q)
         ck.nontrivial(h[:-1])
     ck.sample({"events": hs[0][-1]["events"][:5]})
     # edit histories through the dict API
